@@ -1095,6 +1095,8 @@ def regpool_outcome(out):
         return repr(('uncomparable', type(e).__name__))
 
 
+NO_CONTEXT = '<no context argument>'
+DATALESS = ['$', '[$, 1]', '$ = null', 'coalesce($, 0)', '$.len()', 'let(x => $) -> $x']
 REGPOOL_OPTIONS = {'yaql.memoryQuota': 4000000, 'yaql.limitIterators': 100}
 _RP_ENGINES = {}
 
@@ -1129,9 +1131,12 @@ def regpool_run_steps(mode, steps, contexts=None, cache=None):
     cache = {} if cache is None else cache
     outs = []
     for key, on_child, text, reprs in steps:
-        if key not in contexts:
-            contexts[key] = fresh_chain()
-        ctx = contexts[key].create_child_context() if on_child else contexts[key]
+        if key == NO_CONTEXT:
+            ctx = None
+        else:
+            if key not in contexts:
+                contexts[key] = fresh_chain()
+            ctx = contexts[key].create_child_context() if on_child else contexts[key]
         st = cache.get(text)
         if st is None:
             try:
@@ -1139,8 +1144,16 @@ def regpool_run_steps(mode, steps, contexts=None, cache=None):
             except Exception as e:      # noqa
                 outs.append(repr(('err', 'parse:' + type(e).__name__)))
                 continue
+        if reprs is None:
+            # the form of the README without data: `engine(expr).evaluate()` - only ever without a context (on a context the
+            # host supplies, `$` is what the host or an earlier `evaluate(data=..)` bound there: that is the property's own exception)
+            outs.append(regpool_outcome(regpool_call(lambda: st.evaluate())))
+            continue
         data = {k: eval(v, dict(PYNS)) for k, v in reprs.items()}      # noqa: S307 - our own reprs
-        outs.append(regpool_outcome(regpool_call(lambda: st.evaluate(data=data, context=ctx))))
+        if ctx is None:
+            outs.append(regpool_outcome(regpool_call(lambda: st.evaluate(data=data))))      # `engine(expr).evaluate(data=doc)`
+        else:
+            outs.append(regpool_outcome(regpool_call(lambda: st.evaluate(data=data, context=ctx))))
     return outs
 
 
@@ -1289,17 +1302,20 @@ def regpool_pretty(text):
 def regpool_report(res, mode, hs, got, exp):
     keys = []
     for st in hs:
-        if st[0] not in keys:
+        if st[0] not in keys and st[0] != NO_CONTEXT:
             keys.append(st[0])
 
     def line(st):
+        if st[0] == NO_CONTEXT:
+            return 'engine(%r).evaluate(%s) [no context argument]' % (
+                st[2], '' if st[3] is None else 'data={%s}' % ', '.join('%r: %s' % kv for kv in st[3].items()))
         where = 'context %d' % (keys.index(st[0]) + 1) if len(keys) > 1 else 'the context'
         return '%s on %s [%s%s]' % (st[2], '{%s}' % ', '.join('%r: %s' % kv for kv in st[3].items()), 'a child of ' if st[1] else '', where)
     res.fail('oracle', 'reuse-differs',
              'registry pool: in ONE process, against %s prepared with yaql.create_context() (yaql.convertInputData=%s), the '
              'evaluations %s make the last one give %s; the same statement on an equal document, in a process that evaluated '
              'nothing else, against a context made anew gives %s' % (
-                 'one context' if len(keys) == 1 else '%d contexts' % len(keys), mode, ' ; then '.join(line(st) for st in hs),
+                 'one context' if len(keys) <= 1 else '%d contexts' % len(keys), mode, ' ; then '.join(line(st) for st in hs),
                  regpool_pretty(got), regpool_pretty(exp)),
              dict(part='regpool', mode=mode, steps=hs))
 
@@ -1403,7 +1419,16 @@ def run_regpool(world, res, rng, tier, hist, plans=None):
             # the history: ONE process, ONE prepared context, every statement of the block twice, in random order
             order = stmts * 2
             rng.shuffle(order)
-            steps = [['the context', rng.random() < 0.3, t, reprs] for _, t, reprs in order]
+            # ... one in 25 in the form of the README, `engine(expr).evaluate(data=doc)` WITHOUT a context argument, and a
+            # dozen evaluations without data AND without context in between (`$` is null there, whatever ran before)
+            dataless = [('<dataless>', t, None) for t in rng.sample(DATALESS, 4)] + [
+                ('<dataless>', t, None) for _, t, _ in rng.sample(stmts, min(8, len(stmts)))]
+            for d in dataless:
+                order.insert(rng.randrange(len(order) // 3, len(order) + 1), d)
+            steps = [[NO_CONTEXT if (reprs is None or rng.random() < 0.04) else 'the context', rng.random() < 0.3, t, reprs]
+                     for _, t, reprs in order]
+            for (k, t, reprs), r in zip(dataless, server.jobs(mode, [[[NO_CONTEXT, False, t, None]] for _, t, _ in dataless])):
+                ref[(k, t)] = r[0] if r else None
             outs = server.jobs(mode, [steps])[0]
             if outs is None:
                 hist['regpool-blocks-without-an-answer'] = hist.get('regpool-blocks-without-an-answer', 0) + 1
